@@ -4,6 +4,7 @@ package gosym
 
 import (
 	"bufio"
+	"context"
 	"fmt"
 	"io"
 	"os"
@@ -43,6 +44,7 @@ type Solver struct {
 	Gen     int // incremented by Restart
 	rec     strings.Builder
 
+	Died          int // times the z3 process had to be replaced
 	Fallbacks     int // queries handed to the cvc5 integer-encoding fallback
 	FallbackUnsat int
 	FallbackTime  time.Duration
@@ -152,7 +154,12 @@ func (s *Solver) Fallback(names []string, timeoutMs int) (SatResult, Model) {
 			g.Close()
 			path = g.Name()
 		}
-		out, err := exec.Command("cvc5", "--incremental", "--solve-bv-as-int=sum", fmt.Sprintf("--tlimit-per=%d", timeoutMs), path).CombinedOutput()
+		ctx, cancel := context.WithTimeout(context.Background(), time.Duration(timeoutMs+3000)*time.Millisecond)
+		defer cancel()
+		out, err := exec.CommandContext(ctx, "cvc5", "--incremental", "--solve-bv-as-int=sum", fmt.Sprintf("--tlimit-per=%d", timeoutMs), path).CombinedOutput()
+		if ctx.Err() != nil {
+			return "unknown", ctx.Err()
+		}
 		return string(out), err
 	}
 	out, _ := run(false)
@@ -252,7 +259,9 @@ func (s *Solver) sync() []string {
 	for {
 		line, err := s.out.ReadString('\n')
 		if err != nil {
-			s.Errors = append(s.Errors, "solver died: "+err.Error())
+			// the process ended (killed by the watchdog or crashed): the pending
+			// query is unknown; the caller restarts the solver
+			s.Died++
 			return lines
 		}
 		line = strings.TrimRight(line, "\r\n")
@@ -280,7 +289,12 @@ func (s *Solver) Assert(expr string) { s.send("(assert " + expr + ")\n") }
 func (s *Solver) Check() SatResult {
 	t0 := time.Now()
 	s.send("(check-sat)\n")
+	// watchdog: z3 sometimes overruns its soft timeout (preprocessing of very
+	// large terms); kill it so that the query is reported unknown
+	proc := s.cmd.Process
+	wd := time.AfterFunc(time.Duration(s.timeout+8000)*time.Millisecond, func() { proc.Kill() })
 	lines := s.sync()
+	wd.Stop()
 	d := time.Since(t0)
 	s.Time += d
 	s.Queries++
